@@ -106,6 +106,20 @@ theorem grm_cat_conj (d : grm_Digests) (s : Sge.Reward.State) (hI : Sge.Reward.g
     exact beq_self_eq_true _
   · cases hx
 
+/-- without any assumption on the promoters: the three lookups of the genesis import succeed for every entry -/
+theorem grm_cat_some (d : grm_Digests) (s : Sge.Reward.State) (hI : Sge.Reward.grm_RwI s) (hS : Sge.Reward.grm_CatSome s) :
+    ∀ x ∈ (grm_stores d s).byCategory, (promoterOfReward (grm_stores d s) x.uid).isSome = true := by
+  intro x hx
+  rcases grm_mem_setAll_sub _ _ _ _ hx with hx | hx
+  · obtain ⟨y, hy, rfl⟩ := List.mem_map.mp hx
+    obtain ⟨r, hr, hru, c, hc, pa, hpa, _⟩ := hS y hy
+    have e := grm_promoterOfReward d s hI r hr c hc pa hpa
+    rw [hru] at e
+    show (promoterOfReward (grm_stores d s) y.uid).isSome = true
+    rw [e]
+    rfl
+  · cases hx
+
 -- ---------------------------------------------------------------------------------------------
 -- grant counters: the genesis-level counter store
 
